@@ -47,6 +47,11 @@ mod c17 {
     include!(concat!(env!("XOOLIVE_RS1090_VERIF_DIR"), "/c17.rs"));
 }
 
+#[allow(dead_code)]
+mod pipeline {
+    include!(concat!(env!("XOOLIVE_RS1090_VERIF_DIR"), "/pipeline.rs"));
+}
+
 fn replay_or_det<S: batch::Scenario>(sc: &S, cmd: &str, env: &batch::Env) -> i32 {
     match cmd {
         "replay" => {
@@ -75,16 +80,25 @@ fn replay_kind() -> String {
         .unwrap_or_else(|| "focused".to_string())
 }
 
+/// the property's focused scenario, then the pipeline scenario judged with
+/// the same property's clauses; one evidence file
 fn check<S: batch::Scenario>(sc: &S, env: &batch::Env) -> i32 {
-    batch::run_check(sc, env).exit_code
+    use batch::Scenario;
+    let r1 = batch::run_batch(sc, env, env.runs_override.unwrap_or_else(|| sc.runs(env.tier)));
+    let pl = pipeline::Pipeline { prop: sc.id() };
+    let r2 = batch::run_batch(&pl, env, batch::extra_runs(pl.runs(env.tier), "VERIF_PIPELINE_RUNS"));
+    batch::write_evidence(env, sc.id(), &r1, &[("pipeline", &r2)]);
+    batch::exit_of(&[&r1, &r2])
 }
 
 fn check_c10(env: &batch::Env) -> i32 {
     use batch::Scenario;
     let r1 = batch::run_batch(&c10::C10, env, env.runs_override.unwrap_or_else(|| c10::C10.runs(env.tier)));
     let r2 = batch::run_batch(&c10::Decode1090Proc, env, batch::extra_runs(c10::Decode1090Proc.runs(env.tier), "VERIF_PROC_RUNS"));
-    batch::write_evidence(env, "C10", &r1, &[("decode1090_process", &r2)]);
-    batch::exit_of(&[&r1, &r2])
+    let pl = pipeline::Pipeline { prop: "C10" };
+    let r3 = batch::run_batch(&pl, env, batch::extra_runs(pl.runs(env.tier), "VERIF_PIPELINE_RUNS"));
+    batch::write_evidence(env, "C10", &r1, &[("decode1090_process", &r2), ("pipeline", &r3)]);
+    batch::exit_of(&[&r1, &r2, &r3])
 }
 
 /// Entry point: `VERIF_CMD=check|replay|dethash VERIF_PROP=<id> <test binary>
@@ -119,6 +133,11 @@ fn verif_entry() {
             ("C10", "decode1090") => replay_or_det(&c10::Decode1090Proc, &cmd, &env),
             ("C12", "focused") => replay_or_det(&c12::C12, &cmd, &env),
             ("C17", "focused") => replay_or_det(&c17::C17, &cmd, &env),
+            ("C06", "pipeline") => replay_or_det(&pipeline::Pipeline { prop: "C06" }, &cmd, &env),
+            ("C09", "pipeline") => replay_or_det(&pipeline::Pipeline { prop: "C09" }, &cmd, &env),
+            ("C10", "pipeline") => replay_or_det(&pipeline::Pipeline { prop: "C10" }, &cmd, &env),
+            ("C12", "pipeline") => replay_or_det(&pipeline::Pipeline { prop: "C12" }, &cmd, &env),
+            ("C17", "pipeline") => replay_or_det(&pipeline::Pipeline { prop: "C17" }, &cmd, &env),
             _ => {
                 println!("HARNESS-ERROR: unknown property/scenario '{}'/'{}'", prop, kind);
                 2
